@@ -8,7 +8,7 @@ from vf.spec import bits
 ID = "C08"
 OPT_QUICK_ALL = True      # every partition also in a child interpreter started with -O
 LEVEL = "exploration"
-TECHNIQUE = "exhaustive enumeration of sense buffers (response codes x valid bit x sense keys x all 65536 ASC/ASCQ pairs x all lengths 1..252 x filler bytes); construction, str(), print() and print_data (also in a process whose sys.stdout is None) must not raise and key/ASC/ASCQ are compared with SPC's positions extracted by the independent bit oracle"
+TECHNIQUE = "exhaustive enumeration of sense buffers (response codes x valid bit x sense keys x all 65536 ASC/ASCQ pairs x all lengths 1..252 x filler bytes); construction, str(), print() and print_data (also in a process whose sys.stdout is None or offers write() only) must not raise and key/ASC/ASCQ are compared with SPC's positions extracted by the independent bit oracle"
 RULE = ("quick: all 65536 ASC/ASCQ pairs x response codes {70h,72h} (key 5) + {71h,73h} (key 6); 16 keys x 9 response codes {70-73,00,6F,74,7E,7F} "
         "x valid bit x 64 ASC/ASCQ pairs; every length 1..252 x 9 response codes x filler {00,FF} x ADDITIONAL SENSE LENGTH {exact n-7, 0, FFh} with and without print_data; descriptor format x 16 keys x sense data descriptors of 18 types x 7 ADDITIONAL LENGTH values x 4 contents (incl. nested sense data) singly and in pairs; every byte position of the minimal buffer x 256 values x 16 keys; through the real device classes on both transports: every sequence of 1-3 CHECK CONDITIONs, each with its own sense data, over fresh commands and over one command object submitted again (the error describes the sense data of that execution); the 9 codes x valid x 16 keys x 64 pairs family also copied (copy.copy, copy.deepcopy) and pickled, the clone reporting the same; all ordered pairs and triples of 12 sense buffers built in sequence and kept alive, each compared afterwards with what it reports alone; "
         "thorough: the full product 9 codes x 2 valid x 16 keys x 65536 pairs. Non-trivial = anything other than the all-zero 18-byte fixed "
@@ -81,6 +81,13 @@ def expected(buf):
 _LOG = []
 
 
+class _WriteOnly(object):
+    """the least print() asks of a stream"""
+
+    def write(self, text):
+        return len(text)
+
+
 def _quiet_logger():
     """a logger that formats its records (into a sink) without touching stderr; formatting errors are raised, not swallowed"""
     import logging
@@ -149,20 +156,21 @@ def run_case(case, obs=None):
         # a process without standard output (daemon started with fd 1 closed, pythonw: sys.stdout is None - print() tolerates that)
         import sys
         saved = sys.stdout
-        try:
-            sys.stdout = None
-            t0 = str(e)
-            print(e)
-            e.print_data()
-            sys.stdout = saved
-            if t0 != text:
-                out.append(("no_stdout_differs/%s" % fmt, "str() of the error for sense %s without standard output gives %r, with one %r" % (buf[:20].hex(), t0, text)))
-        except Exception as ex:   # noqa: BLE001
-            sys.stdout = saved
-            out.append(("no_stdout_raises/%s" % fmt, "str()/print/print_data of the error for sense %s (print_data=%s) in a process whose sys.stdout is None raised %s: %s"
-                        % (buf[:20].hex(), show, type(ex).__name__, ex)))
-        finally:
-            sys.stdout = saved
+        for label, stream in (("is None", None), ("is an object that offers write() only (a log / GUI redirector)", _WriteOnly())):
+            try:
+                sys.stdout = stream
+                t0 = str(e)
+                print(e)
+                e.print_data()
+                sys.stdout = saved
+                if t0 != text:
+                    out.append(("no_stdout_differs/%s" % fmt, "str() of the error for sense %s in a process whose sys.stdout %s gives %r, otherwise %r" % (buf[:20].hex(), label, t0, text)))
+            except Exception as ex:   # noqa: BLE001
+                sys.stdout = saved
+                out.append(("no_stdout_raises/%s" % fmt, "str()/print/print_data of the error for sense %s (print_data=%s) in a process whose sys.stdout %s raised %s: %s"
+                            % (buf[:20].hex(), show, label, type(ex).__name__, ex)))
+            finally:
+                sys.stdout = saved
     if case[-1] == "clone" and text is not None:
         # ... and gets reported by Python's own machinery: traceback formatting, logging with exc_info, notes, attribute probing
         import logging
